@@ -1,6 +1,7 @@
 import BiotiteModel.Proofs.C17Seg
 import BiotiteModel.Proofs.C17Graph
 import BiotiteModel.Gen.C17
+import BiotiteModel.Proofs.C17Source
 /-!
 # C17 — property theorems (residue / chain / molecule segmentation = per-atom recomputation)
 
@@ -320,6 +321,36 @@ type table of `get_all_bonds()`.  So the graph `C17_molecules` speaks about is t
 theorem C17_no_bond_type_filter :
     Gen.C17.moleculeBondTypeRefs = [] ∧ Gen.C17.connectedBondTypeRefs = [] := by
   decide
+
+/-- **Source shape** (tie pass 7): signatures with their default values, the normalised bodies of every modelled
+`.py` function and the code lines of `find_connected` / `_find_connected` / `BondList.get_all_bonds` in bonds.pyx, as
+regenerated from the source in this run, are the ones the model was written against (`Proofs/C17Source.lean`).
+Any edit of a literal, an operator, a guard, a default, the order of checks or steps, the helper called, a dtype
+choice or an exception class in these functions breaks this obligation for all inputs at once. -/
+theorem C17_gen_source_shape :
+    Gen.C17.signatures = Source.expectedSignatures ∧
+    Gen.C17.pyBodies = Source.expectedPyBodies ∧
+    Gen.C17.pyxBodies = Source.expectedPyxBodies :=
+  ⟨rfl, rfl, rfl⟩
+
+/-- **Constants of the starts construction**, regenerated and plugged into the model: for both `get_*_starts` the
+array is `[first] ++ (np.where(mask)[0] + off) ++ [array.array_length()]` with the regenerated `first`, `off`, and
+that is what `startsOf` computes; `searchsorted(side='right') - 1` is what `searchRight`/`segPositions` compute. -/
+theorem C17_gen_model_constants :
+    (∀ b ∈ Gen.C17.startsBuild, b.2.2.1 = 0 ∧ b.2.2.2.2 = "[array.array_length()]" ∧
+      ∀ (n : Nat) (mask : List Bool), n ≠ 0 →
+        startsOf n mask true = [b.2.1] ++ (whereTrue mask).map (· + b.2.2.2.1) ++ [n] ∧
+        startsOf n mask false = [b.2.1] ++ (whereTrue mask).map (· + b.2.2.2.1)) ∧
+    Gen.C17.startsBuild.map (·.1) = ["get_residue_starts", "get_chain_starts"] ∧
+    (∀ t ∈ Gen.C17.searchSides, t.2.1 = "right" ∧ t.2.2 = "1") ∧
+    (∀ (ss : List Nat) (v : Nat), searchRight ss v = ss.countP (· ≤ v)) := by
+  have h : Gen.C17.startsBuild = [("get_residue_starts", 0, 0, 1, "[array.array_length()]"),
+      ("get_chain_starts", 0, 0, 1, "[array.array_length()]")] := by decide
+  refine ⟨?_, by rw [h]; rfl, by decide, fun _ _ => rfl⟩
+  intro b hb
+  rw [h] at hb
+  simp only [List.mem_cons, List.not_mem_nil, or_false] at hb
+  rcases hb with rfl | rfl <;> exact ⟨rfl, rfl, fun n mask hn => by simp [startsOf, hn]⟩
 
 /-! ## non-vacuity -/
 
